@@ -7,6 +7,7 @@ import (
 	"fmt"
 	"io"
 	"net/http"
+	"net/http/httptest"
 	"strings"
 	"sync"
 	"testing"
@@ -16,6 +17,7 @@ import (
 	"verifharness/bsched"
 	"verifharness/ev"
 	"verifharness/memhttp"
+	"verifharness/refwire"
 )
 
 // C13 — concurrent calls on shared clients and handlers never interfere.
@@ -36,13 +38,23 @@ type c13Case struct {
 	Cfg     Cfg       `json:"cfg"`
 	Calls   []c13Call `json:"calls"`
 	OneBidi bool      `json:"one_bidi"` // sender || receiver on one bidi stream instead
-	Bound   int       `json:"bound"`
-	Sub     int       `json:"sub"`  // sub-shard of the root's children
-	Subs    int       `json:"subs"` //
-	Prefix  []int     `json:"prefix,omitempty"`
+	// Pre: a call made through the shared handler before the concurrent calls start ("corrupt-crc": gzip with intact deflate data and a wrong CRC trailer; "corrupt-trunc": truncated gzip data).
+	Pre string `json:"pre,omitempty"`
+	// RR: explore around the round-robin default scheduler instead of run-to-block.
+	RR     bool  `json:"rr,omitempty"`
+	Bound  int   `json:"bound"`
+	Sub    int   `json:"sub"`  // sub-shard of the root's children
+	Subs   int   `json:"subs"` //
+	Prefix []int `json:"prefix,omitempty"`
 }
 
-func (k c13Case) key() string { return fmt.Sprintf("%s/%s/%d-of-%d", k.Name, k.Cfg, k.Sub, k.Subs) }
+func (k c13Case) key() string {
+	pol := "rtb"
+	if k.RR {
+		pol = "rr"
+	}
+	return fmt.Sprintf("%s/%s/%s/%d-of-%d", k.Name, k.Cfg, pol, k.Sub, k.Subs)
+}
 
 func c13Payloads(call int, sizes []int) [][]byte {
 	out := make([][]byte, len(sizes))
@@ -151,6 +163,33 @@ func (r *c13Recorder) check() string {
 
 var poisonSeq = bytes.Repeat([]byte{0xDB}, 4)
 
+// c13TestName is the test that replays violations found by c13Explore (C08
+// reuses the concurrent after-corruption scenarios under its own name).
+var c13TestName = "TestC13"
+
+// c13AfterCorrupt: two valid compressed calls run concurrently after a corrupt
+// compressed call went through the same handler.
+func c13AfterCorrupt() []c13Case {
+	var out []c13Case
+	for _, pre := range []string{"corrupt-crc", "corrupt-trunc"} {
+		for _, sc := range []struct {
+			name  string
+			cfg   Cfg
+			calls []c13Call
+		}{
+			{"after-" + pre, Cfg{Proto: PConnect, Comp: CompSendGzip, Kind: KUnary, HTTP: 2}, []c13Call{{Sizes: []int{90}}, {Sizes: []int{120}}}},
+			{"after-" + pre + "-grpc", Cfg{Proto: PGRPC, Comp: CompSendGzip, Kind: KClient, HTTP: 2}, []c13Call{{Sizes: []int{90, 70}}, {Sizes: []int{120}}}},
+		} {
+			for sub := 0; sub < 4; sub++ {
+				for _, rr := range []bool{false, true} {
+					out = append(out, c13Case{Name: sc.name, Cfg: sc.cfg, Calls: sc.calls, Bound: 1, Sub: sub, Subs: 4, Pre: pre, RR: rr})
+				}
+			}
+		}
+	}
+	return out
+}
+
 func obsString(res CallResult) string {
 	var sb strings.Builder
 	for _, m := range res.Msgs {
@@ -194,10 +233,38 @@ type c13Obs struct {
 	Leaked   []string
 }
 
+// c13Pre sends the preparatory (corrupt) request straight into the shared handler.
+func c13Pre(k c13Case, h http.Handler) {
+	if k.Pre == "" {
+		return
+	}
+	payload := codecMarshal(k.Cfg.JSON, &BV{Value: Payload(80, 0x7e)})
+	z := Gzip(payload)
+	switch k.Pre {
+	case "corrupt-crc":
+		z[len(z)-6] ^= 0xff // inside the CRC32 of the gzip trailer
+	case "corrupt-trunc":
+		z = z[:len(z)/2]
+	}
+	body := z
+	ct := contentType(k.Cfg.Proto, k.Cfg.Kind, k.Cfg.JSON)
+	if !(k.Cfg.Proto == PConnect && k.Cfg.Kind == KUnary) {
+		body = refwire.Envelope(1, z)
+	}
+	req := httptest.NewRequest("POST", "http://mem.test"+Procedure, bytes.NewReader(body))
+	req.ProtoMajor, req.ProtoMinor, req.Proto = 2, 0, "HTTP/2.0"
+	req.Header.Set("Content-Type", ct)
+	encH, _ := encHeaders(k.Cfg.Proto, k.Cfg.Kind)
+	req.Header.Set(encH, "gzip")
+	req.Header.Set("X-Call", "pre")
+	h.ServeHTTP(httptest.NewRecorder(), req)
+}
+
 func c13Body(k c13Case, s *bsched.Sched) any {
 	obs := &c13Obs{}
 	rec := &c13Recorder{}
 	h := c13Handler(k.Cfg.Kind, rec, k.Cfg.HandlerOptions()...)
+	c13Pre(k, h)
 	tr := &memhttp.Transport{Handler: h, Proto: 2, ReqMode: k.Cfg.ReqMode}
 	if s != nil {
 		tr.Gate = s.Gate
@@ -312,6 +379,7 @@ func c13Solo(t *testing.T, k c13Case) []string {
 		for i, call := range k.Calls {
 			rec := &c13Recorder{}
 			h := c13Handler(k.Cfg.Kind, rec, k.Cfg.HandlerOptions()...)
+			c13Pre(k, h)
 			tr := &memhttp.Transport{Handler: h, Proto: 2, ReqMode: k.Cfg.ReqMode, SyncCloseReq: true}
 			cl := NewClient(tr, k.Cfg)
 			var res CallResult
@@ -347,7 +415,7 @@ func c13Judge(c *ev.Collector, k c13Case, x *bsched.Exec, solo []string) string 
 	kk.Prefix = x.TrimmedChoices()
 	tags := append(k.Cfg.Tags(), "scenario="+k.Name)
 	viol := func(clause, outcome, format string, args ...any) {
-		c.Violation("TestC13", clause, outcome, tags, kk, "%s [%s]: "+format+"\n  schedule: %v", append(append([]any{k.key(), schedLine(x)}, args...), traceOf(x, 500))...)
+		c.Violation(c13TestName, clause, outcome, tags, kk, "%s [%s]: "+format+"\n  schedule: %v", append(append([]any{k.key(), schedLine(x)}, args...), traceOf(x, 500))...)
 	}
 	if x.Horizon {
 		c.NotExhaustive("step horizon reached in " + k.key())
@@ -400,6 +468,7 @@ func c13Scenarios(thorough bool) []c13Case {
 		subs := 4
 		for sub := 0; sub < subs; sub++ {
 			out = append(out, c13Case{Name: name, Cfg: cfg, Calls: calls, OneBidi: onebidi, Bound: 1, Sub: sub, Subs: subs})
+			out = append(out, c13Case{Name: name, Cfg: cfg, Calls: calls, OneBidi: onebidi, Bound: 1, Sub: sub, Subs: subs, RR: true})
 		}
 		if thorough && !strings.HasPrefix(name, "t-") {
 			// every pair of delays for the base scenarios
@@ -422,6 +491,7 @@ func c13Scenarios(thorough bool) []c13Case {
 	add("server-server", Cfg{Proto: PConnect, Comp: CompSendGzip, Kind: KServer}, false, small, fail)
 	add("bidi-bidi", Cfg{Proto: PGRPCWeb, Comp: CompDefault, Kind: KBidi}, false, two, small)
 	add("one-bidi-send-recv", Cfg{Proto: PGRPC, Comp: CompDefault, Kind: KBidi}, true, two)
+	out = append(out, c13AfterCorrupt()...)
 	if thorough {
 		big := c13Call{Sizes: []int{5000}}
 		for _, p := range AllProtos {
@@ -437,7 +507,10 @@ func c13Scenarios(thorough bool) []c13Case {
 }
 
 func c13Explore(t *testing.T, c *ev.Collector, k c13Case) {
+	schedRoundRobin = false
 	solo := c13Solo(t, k)
+	schedRoundRobin = k.RR
+	defer func() { schedRoundRobin = false }()
 	c.Case(k.key(), true)
 	outcomes := map[string]int{}
 	e := &bsched.Explorer{
@@ -483,7 +556,7 @@ func c13Explore(t *testing.T, c *ev.Collector, k c13Case) {
 func TestC13(t *testing.T) {
 	c := ev.New("C13")
 	defer func() { _ = c.Finish() }()
-	c.SetRule("stateless model checking under the controlled scheduler: G driver threads each run one complete call (pairwise distinct, call-tagged payloads of 3 B..5 kB, success and error outcomes, identity/gzip/custom compression, proto/json) on ONE shared Client and ONE shared Handler whose pools are deterministic LIFO stacks that poison released buffers; plus sender||receiver on a single bidi stream; yield points: every statement of duplex_http_call.go, every pool/compressor/codec/IO operation elsewhere in the library, every membrane operation; every schedule within the delay bound is executed; oracle: each call's observation (messages, error code+text+metadata, echoed header and trailer) equals the same call run alone, no poisoned byte is user-visible, values handed to user code are unchanged at the end")
+	c.SetRule("stateless model checking under the controlled scheduler: G driver threads each run one complete call (pairwise distinct, call-tagged payloads of 3 B..5 kB, success and error outcomes, identity/gzip/custom compression, proto/json) on ONE shared Client and ONE shared Handler whose pools are deterministic LIFO stacks that poison released buffers; plus sender||receiver on a single bidi stream; yield points: every statement of duplex_http_call.go, every pool/compressor/codec/IO operation elsewhere in the library, every membrane operation; every schedule within the delay bound of two default schedulers (non-preemptive run-to-block, and round-robin at every yield point) is executed; oracle: each call's observation (messages, error code+text+metadata, echoed header and trailer) equals the same call run alone, no poisoned byte is user-visible, values handed to user code are unchanged at the end")
 	c.Assume("sequentially consistent interleavings at statement / visible-operation granularity (memory-model-level races are outside this technique; see DESIGN 7)",
 		"memhttp models net/http; deterministic LIFO pool maximises buffer reuse between the calls")
 	if ev.ReplayFile() != "" {
@@ -492,6 +565,7 @@ func TestC13(t *testing.T) {
 			t.Fatal(err)
 		}
 		solo := c13Solo(t, k)
+		schedRoundRobin = k.RR
 		x := runSched(t, k.Prefix, nil, 20000, func(s *bsched.Sched) any { return c13Body(k, s) })
 		fmt.Println("replay:", c13Judge(c, k, x, solo), schedLine(x))
 		return
